@@ -190,42 +190,7 @@ fn v(oracle: &str, d: String) -> Violation {
 impl C09 {
     fn case(&self, scn: &Scn, f: u8, key: bool, di: u32, ctx: &mut Ctx) -> Result<(), Violation> {
         let mut rng = Rng::new(mix(scn.seed, di as u64));
-        let at = 0x10 + rng.below(0x70) as u8;
-        let mut bytes = gen::uniform_image(&mut rng, 240);
-        // operands in RAM vs. I/O: sometimes point the operand bytes into I/O space
-        bytes[at as usize] = scn.b1;
-        let mut pos = at as usize + 1;
-        if scn.b1 >= 0xF0 {
-            let sm = (scn.b1 >> 2) & 3;
-            let sr = scn.b1 & 3;
-            if sr == 3 && sm >= 2 {
-                bytes[pos] = if rng.chance(1, 3) { 0xF0 + rng.below(16) as u8 } else { rng.u8() };
-                pos += 1;
-            }
-            if let Some(b2) = scn.b2 {
-                // with (PC) as source (mode 1, r = 3) the source byte is also the second opcode
-                if !(sr == 3 && sm == 1) {
-                    bytes[pos] = b2;
-                } else {
-                    bytes[pos] = b2;
-                }
-                pos += 1;
-                if b2 & 3 == 3 && (b2 >> 2) & 3 >= 2 {
-                    bytes[pos] = if rng.chance(1, 3) { 0xF0 + rng.below(16) as u8 } else { rng.u8() };
-                }
-            }
-        }
-        let mut regs = [0u8; 8];
-        for r in regs.iter_mut() {
-            *r = rng.u8();
-        }
-        if rng.chance(1, 3) {
-            regs[rng.usize(3)] = 0xF0 + rng.below(16) as u8; // a pointer into I/O space
-        }
-        regs[3] = at;
-        regs[4] = (regs[4] & 0xF0) | f;
-        regs[5] = gen::valid_sp(&mut rng, 0);
-        let setup = Setup { image: Image { bytes, stack: 0, limit: Some(0xFF), keep_limit: false }, regs: Some(regs), pokes: vec![], inputs: [rng.u8(), rng.u8(), rng.u8(), rng.u8()], asm_mode: false };
+        let setup = gen::form_case_setup(&mut rng, scn.b1, scn.b2, f);
         let mut ls = LockStep::new("C09", &setup);
         ls.compare = Compare::Off;
         ls.check_cost = true;
